@@ -67,7 +67,10 @@ GenMat(k) ==
         G0 == CASE k.tri = "upper" -> U
                 [] k.tri = "lower" -> MT(U)
                 [] k.tri = "full"  -> MM(U, MR(Lead(M3, k.dim)))
-    IN IF k.scaled THEN MM(MDiag(Pre(DgS, k.dim)), G0) ELSE G0
+        \* row scaling: dyadic diagonal for triangular square-root precisions (non-unit, non-constant diagonal),
+        \* the scalar 2 otherwise (keeps the rational Gauss-Jordan inverses of the dense forms small)
+        Sc == IF k.tri \in {"upper", "lower"} /\ k.form = "sqrtprec" THEN MDiag(Pre(DgS, k.dim)) ELSE MScale(R(2), MId(k.dim))
+    IN IF k.scaled THEN MM(Sc, G0) ELSE G0
 
 \* generator of a diagonal configuration: g (square root of the diagonal precision)
 GenDiag(k) ==
@@ -127,14 +130,17 @@ GaussValid(k) ==
 GaussMean(k) == IF k.mform = "scalar" THEN [i \in 1..k.dim |-> MuV[2]] ELSE Pre(MuV, k.dim)
 
 \* the affine law on the specification:  L L^T P = I,  P symmetric, P independent of the form
-AffineLawHolds(L, P) == MM(MM(L, MT(L)), P) = MId(Len(P))
+AffineLawHolds(L, P) ==
+    LET Lt == F(MT(L))
+        C  == F(MM(L, Lt))
+    IN F(MM(C, P)) = MId(Len(P))
 
 GaussLaw ==
     (c.kind = "gauss" /\ IsMatShape(c.shape)) =>
-        LET G == GenMat(c)
-            X == DataMat(c.form, G)
-            P == PrecOfMat(c.form, X)
-            L == LOfMat(c.form, X, G)
+        LET G == F(GenMat(c))
+            X == F(DataMat(c.form, G))
+            P == F(PrecOfMat(c.form, X))
+            L == F(LOfMat(c.form, X, G))
         IN /\ P = MM(MT(G), G)                    \* SameDistribution: the four forms denote one precision
            /\ MSym(P)
            /\ AffineLawHolds(L, P)
@@ -174,22 +180,41 @@ GDim(k)  == IF k.pd = 1 THEN k.n ELSE k.n * k.n
 GMean(k) == [i \in 1..GDim(k) |-> ((i * i) % 5) - 2]
 
 \* pseudo-inverse of a symmetric PSD rational matrix whose null space is spanned by the rows of B
+\* (every intermediate is forced once with F and bound by LET: TLC would otherwise re-evaluate nested arguments)
 PInv(P, B) ==
-    IF Len(B) = 0 THEN MInv(P)
-    ELSE LET Bt   == MT(B)
-             Gi   == MInv(MM(B, Bt))
-         IN MSub(MInv(MAdd(P, MM(Bt, B))), MM(MM(Bt, MM(Gi, Gi)), B))
+    IF Len(B) = 0 THEN F(MInv(P))
+    ELSE LET Bt   == F(MT(B))
+             BBt  == F(MM(B, Bt))
+             Gi   == F(MInv(BBt))
+             Gi2  == F(MM(Gi, Gi))
+             BtB  == F(MM(Bt, B))
+             Reg  == F(MAdd(P, BtB))
+             RegI == F(MInv(Reg))
+             T1   == F(MM(Bt, Gi2))
+             T2   == F(MM(T1, B))
+         IN F(MSub(RegI, T2))
 
 \* design "pinv": xi has one entry per row of D,  L = delta^(-1/2) (D^T D)^+ D^T   (valid for EVERY operator)
-PinvDesignL(D, B, sd) == MScale(Q(1, sd), MM(PInv(MM(MT(D), D), B), MT(D)))
+PinvDesignL(D, B, sd) ==
+    LET Dt == F(MT(D))
+        P0 == F(MM(Dt, D))
+        Pp == PInv(P0, B)
+        PD == F(MM(Pp, Dt))
+    IN F(MScale(Q(1, sd), PD))
 
-RangeLaw(L, P) == LET C == MM(L, MT(L)) IN MM(MM(P, C), P) = P
+RangeLaw(L, P) ==
+    LET Lt == F(MT(L))
+        C  == F(MM(L, Lt))
+        PC == F(MM(P, C))
+    IN F(MM(PC, P)) = P
 
 GmrfLaw ==
     (c.kind = "gmrf" /\ GDim(c) <= PinvMax) =>
-        LET D  == MR(DOp(OpCfg(c)))
-            B  == IF c.order = 0 THEN <<>> ELSE MR(NullBasis(OpCfg(c)))
-            P  == MScale(R(c.sd * c.sd), MM(MT(D), D))
+        LET D  == F(MR(DOp(OpCfg(c))))
+            B  == F(IF c.order = 0 THEN <<>> ELSE MR(NullBasis(OpCfg(c))))
+            Dt == F(MT(D))
+            P0 == F(MM(Dt, D))
+            P  == F(MScale(R(c.sd * c.sd), P0))
             L  == PinvDesignL(D, B, c.sd)
         IN /\ MSym(P)
            /\ RangeLaw(L, P)
@@ -216,15 +241,15 @@ MaxR(s) == IF Len(s) = 1 THEN s[1] ELSE RMax(Head(s), MaxR(Tail(s)))
 
 \* the diagonal handed to the DFT (frequency k = 0..n-1 at position k+1)
 DftDiag(p, n) ==
-    LET lam  == [k \in 1..n |-> Symbol(p, n, k - 1)]
-        nz   == SelectSeq(lam, LAMBDA x : x # Zero)
-        top  == MaxR(nz)
+    LET lam  == F([k \in 1..n |-> Symbol(p, n, k - 1)])
+        nz   == F(SelectSeq(lam, LAMBDA x : x # Zero))
+        top  == F(MaxR(nz))
     IN IF Dev = "dft_sorted_eigs"
        THEN LET s == SortR(nz) \o [i \in 1..(n - Len(nz)) |-> top] IN [k \in 1..n |-> s[k]]       \* ascending, last repeated
        ELSE [k \in 1..n |-> IF lam[k] = Zero THEN top ELSE lam[k]]                                  \* frequency order
 
 DftCov(P0, n, sd) ==
-    LET d == DftDiag(P0[1], n)
+    LET d == F(DftDiag(P0[1], n))
     IN F([j \in 1..n |-> [l \in 1..n |->
           RMul(Q(1, n * sd * sd), RSumSeq([k \in 1..n |-> RMul(RInv(d[k]), CosT(n, (k - 1) * (j - l)))]))]])
 
@@ -232,10 +257,13 @@ DftApplicable(k, P0) == Circulant(P0) \/ Dev = "dft_on_noncirculant"
 
 DftLaw ==
     (c.kind = "gmrf" /\ c.pd = 1 /\ c.bc = "periodic" /\ c.order >= 1 /\ c.n \in CosN) =>
-        LET D  == MR(DOp(OpCfg(c)))
-            P0 == MM(MT(D), D)
-            P  == MScale(R(c.sd * c.sd), P0)
-        IN DftApplicable(c, P0) => MM(MM(P, DftCov(P0, c.n, c.sd)), P) = P
+        LET D  == F(MR(DOp(OpCfg(c))))
+            Dt == F(MT(D))
+            P0 == F(MM(Dt, D))
+            P  == F(MScale(R(c.sd * c.sd), P0))
+            C  == F(DftCov(P0, c.n, c.sd))
+            PC == F(MM(P, C))
+        IN DftApplicable(c, P0) => F(MM(PC, P)) = P
 
 \* which sampler design the specification prescribes for a field
 Design(k) ==
@@ -338,7 +366,7 @@ CaseConfigs ==
 
 EmitGauss(k) ==
     IF IsMatShape(k.shape)
-    THEN LET G == GenMat(k) X == DataMat(k.form, G) P == PrecOfMat(k.form, X)
+    THEN LET G == F(GenMat(k)) X == F(DataMat(k.form, G)) P == F(PrecOfMat(k.form, X))
          IN PrintT("@@CASE " \o ToJson([kind |-> "gauss", wrap |-> k.wrap, form |-> k.form, shape |-> k.shape, tri |-> k.tri,
                 dim |-> k.dim, scaled |-> k.scaled, mform |-> k.mform, mean |-> GaussMean(k), data |-> X, prec |-> P,
                 exact |-> (k.form = "sqrtprec"), L |-> LOfMat(k.form, X, G)]) \o " @@END")
